@@ -299,7 +299,7 @@ func genDelivery(t *rapid.T) hx.Delivery {
 		d.Pieces = rapid.SliceOfN(rapid.IntRange(1, 200), 0, 5).Draw(t, "pieces")
 	}
 	if mode == "bufio" {
-		d.BufSize = rapid.SampledFrom([]int{16, 64, 4095, 4096, 4097, 8192}).Draw(t, "bufsize")
+		d.BufSize = rapid.SampledFrom([]int{16, 64, 4095, 4096, 4097, 8192, 65536, 65551, 65552, 65553, 70000, 1 << 20}).Draw(t, "bufsize")
 	}
 	return d
 }
